@@ -96,7 +96,7 @@ func c15Cases(thorough bool) []c15Case {
 			}
 		}
 	}
-	for _, shape := range []string{"two-same-file", "two-different-package", "two-files", "iface-plus-variables", "variables-moved", "cli-name-then-path"} {
+	for _, shape := range []string{"two-same-file", "two-different-package", "two-files", "iface-plus-variables", "variables-moved", "cli-name-then-path", "two-dirs-prefix-name", "two-dirs-nested", "same-file-implicit-vs-raw-dir-name"} {
 		for _, fl := range c15Files[:4] {
 			for _, pk := range c15Pkgs[:3] {
 				n++
@@ -218,6 +218,23 @@ func c15Run(bin, root string, c c15Case) ([]ev.Violation, string) {
 			rel2 = path.Join(declDir, "generated", "second.go")
 		}
 		expectFiles[rel2] = true
+	case "two-dirs-prefix-name":
+		// a sibling output directory whose name is a string prefix of the first one ("generated" → "generate")
+		base := path.Base(path.Dir(rel))
+		sib := "generate"
+		if targetDir != declDir && c.file.name != "absolute" && c.file.name != "parent-dir" && len(base) >= 2 {
+			sib = base[:len(base)-1]
+		}
+		second = "// goverter:converter\n// goverter:output:file ./" + sib + "/second.go\ntype D interface {\n\tConvert(source []In) []Out\n}\n"
+		expectFiles[path.Join(declDir, sib, "second.go")] = true
+	case "same-file-implicit-vs-raw-dir-name":
+		// both select ./my_gen/out.go; one leaves the package name to goverter (normalised: mygen), the other names it my_gen
+		src = "package conv\n\n" + types + "\n// goverter:converter\n// goverter:output:file ./my_gen/out.go\ntype C interface {\n\tConvert(source In) Out\n}\n"
+		second = "// goverter:converter\n// goverter:output:file ./my_gen/out.go\n// goverter:output:package :my_gen\ntype D interface {\n\tConvert(source []In) []Out\n}\n"
+		expectFail = true
+	case "two-dirs-nested":
+		second = "// goverter:converter\n// goverter:output:file ./deep/er/nested/second.go\ntype D interface {\n\tConvert(source []In) []Out\n}\n"
+		expectFiles[path.Join(declDir, "deep", "er", "nested", "second.go")] = true
 	case "iface-plus-variables":
 		second = "// goverter:variables\nvar (\n\tConvertV func(source In) Out\n)\n"
 		expectFiles["conv/conv.gen.go"] = true
